@@ -80,6 +80,10 @@ RespVFail ==
   /\ pc' = "fail" /\ err' = "vfail"
   /\ UNCHANGED <<cfg, target, tries, yielded, sent>>
 
+\* the answer arrives in the very instant the lifetime of the awaited Interest runs out, before the timer has been served:
+\* the Interest counts as answered or as timed out (both are correct; anything else - a hang, an internal error - is not)
+RespDataLate == RespData \/ RespLost
+
 Next == Send \/ RespData \/ RespLost \/ RespNack \/ RespVFail
 Spec == Init /\ [][Next]_vars /\ WF_vars(Next)
 
